@@ -30,8 +30,3 @@ Definition merge (a b : anns) : anns :=
   mkAnns (allItems a || allItems b) (Nat.max (endIndex a) (endIndex b)) (evalIdx b ++ evalIdx a)
          (allProps a || allProps b) (evalProps b ++ evalProps a).
 
-Fixpoint mem_nat (i : nat) (l : list nat) : bool :=
-  match l with
-  | [] => false
-  | j :: r => Nat.eqb i j || mem_nat i r
-  end.
